@@ -1,0 +1,23 @@
+//go:build verif
+
+// Package verifhook provides yield points used by the verification harness.
+package verifhook
+
+import "sync/atomic"
+
+var handler atomic.Value // func(point string)
+
+// SetHandler installs fn to be called at every yield point (nil removes it).
+func SetHandler(fn func(point string)) {
+	if fn == nil {
+		fn = func(string) {}
+	}
+	handler.Store(fn)
+}
+
+// Yield calls the installed handler, if any, with the name of the yield point.
+func Yield(point string) {
+	if fn, ok := handler.Load().(func(string)); ok && fn != nil {
+		fn(point)
+	}
+}
